@@ -29,7 +29,10 @@ Allowed(rc) ==
       \* the file is shorter than the stored region counts say although recovery is required: no crash leaves that (the
       \* file is cut only after a header with the smaller counts is durable), somebody cut the file
       cut == pre.rec /\ (pre.q < pre.stored_q \/ (pre.q = pre.stored_q /\ pre.r < pre.stored_r))
-  IN \E ast \in [{1, 2} -> BOOLEAN] :
+  IN \* what a crash leaves (records of the crash driver, not files built by opencases): the file is never shorter than the
+     \* stored counts say, its length always maps onto a layout, and the open succeeds (Resize.tla: Safe; C01)
+     /\ rc.src = "crash" => (~cut /\ ~ld.err /\ post.err = "")
+     /\ \E ast \in [{1, 2} -> BOOLEAN] :
        \* the saved allocator state: read by the independent decoder (the table's transaction id equals the slot's);
        \* TLC chooses only where the decoder could not read the system tree
        /\ \A s \in {1, 2} : pre.slots[s].astate # "unknown" => ast[s] = (pre.slots[s].astate = "yes")
